@@ -148,7 +148,10 @@ def foreign_address_dropped_before_processing(ctx, rule, instance):
     expl = [c for c in panics if any('panic' in m for m in (c.mac or []))]
     ctx.info(rule, '%d explicit panic site(s) in process_payload depend on the drop guard in handle_event' % len(expl))
     he = ctx.pfn('Connection::handle_event')
-    prot = [c.bb for c in he.calls_to('Connection::handle_decode')]
+    # processing site = every call of handle_event from which process_payload (the function that holds the panic) is reachable
+    # in the call graph: handle_decode / handle_coalesced, or packet_crypto::unprotect_header -> handle_packet when handle_decode's
+    # body sits in handle_event itself.  (Not "the callee named handle_decode": the obligation is about what reaches the panic.)
+    prot = sorted(may_sites(F, he, ('Connection::process_payload',), depth=6))
     ctx.floor(rule, instance + '_processing_sites', len(prot), 1)
     mig = [br for br in branches(F, he) if D.has_call(br.desc, 'ConnectionSide::remote_may_migrate')]
     def is_path_remote(d):
